@@ -72,3 +72,22 @@ package datamatrix
 //@   attr fresh_object yes
 //@   requires size != nil && len(data) == dmDataCW(size) + size.ECCCount
 //@   ensures result != nil && result.dmCodeSize == size && result.color == color
+
+// ---------------------------------------------------------------- the image type (C11)
+//@ func (*datamatrixCode).Content
+//@   requires c != nil
+//@   ensures result == c.content
+//@ func (*datamatrixCode).Metadata
+//@   ensures result.CodeKind == barcode.TypeDataMatrix && result.Dimensions == 2
+//@ func (*datamatrixCode).ColorModel
+//@   requires c != nil
+//@   ensures result == c.color.Model
+//@ func (*datamatrixCode).ColorScheme
+//@   requires c != nil
+//@   ensures result == c.color
+//@ func (*datamatrixCode).Bounds
+//@   requires c != nil && c.dmCodeSize != nil && 0 <= c.dmCodeSize.Columns && c.dmCodeSize.Columns <= 1000 && 0 <= c.dmCodeSize.Rows && c.dmCodeSize.Rows <= 1000
+//@   ensures result.Min.X == 0 && result.Min.Y == 0 && result.Max.X == c.dmCodeSize.Columns && result.Max.Y == c.dmCodeSize.Rows
+//@ func (*datamatrixCode).At
+//@   requires c != nil && c.dmCodeSize != nil && c.BitList != nil && 0 <= x && x < c.dmCodeSize.Columns && 0 <= y && y < c.dmCodeSize.Rows && c.dmCodeSize.Columns <= 1000 && c.dmCodeSize.Rows <= 1000 && c.BitList.count == c.dmCodeSize.Rows * c.dmCodeSize.Columns
+//@   ensures result == (c.BitList.model[x*c.dmCodeSize.Rows + y] ? c.color.Foreground : c.color.Background)
